@@ -97,7 +97,9 @@ Example C08_cq_script_nonvacuous :
   reg_get (lrun ops []) 2 = Some (7 :: range 0 9 ++ range 20 5 ++ range 20 5) /\
   (Ex (fmap (rank_reg 20 true 2) (frun ops [])) == inject_Z 12)%Q.
 Proof.
-  cbv zeta. split; [reflexivity|]. rewrite script_rank_unbiased. reflexivity.
+  cbv zeta. split; [vm_compute; reflexivity|]. rewrite script_rank_unbiased.
+  match goal with |- (inject_Z ?X == _)%Q => assert (E : X = 12) by (vm_compute; reflexivity); rewrite E end.
+  reflexivity.
 Qed.
 
 (* non-vacuity: a history with ten coins and one stride-4 draw (2^10 * 4 outcomes) *)
@@ -108,8 +110,10 @@ Example C08_cq_nonvacuous :
 Proof.
   split; [exact W1_wf|]. split.
   - destruct witness1_values as (ar & s & H & E & _ & A & _). exists s. split; [|exact A].
-    rewrite <- E. eapply replay_ar_path; eauto.
-  - rewrite (rank_unbiased 30 true W1 W1_wf). reflexivity.
+    rewrite <- E. exact (replay_ar_path (exec W1) (repeat 0 11) ar s H).
+  - rewrite (rank_unbiased 30 true W1 W1_wf).
+    match goal with |- (inject_Z ?X == _)%Q => assert (E : X = 32) by (vm_compute; reflexivity); rewrite E end.
+    reflexivity.
 Qed.
 
 Print Assumptions C08_cq_halve_pair.
